@@ -43,6 +43,21 @@ for prop in ("C07",):
     open_("D7", prop, "any UPDATE of a table that has a PRIMARY KEY / UNIQUE index fails with 'datatype mismatch ... BigUInt'", "O-res", "history_contains_update", "findings/D7-update-on-table-with-unique-index.json")
     open_("F1", prop, "INSERT of NULL into a PRIMARY KEY/UNIQUE column fails only after the row was stored: the row stays and a later committed insert is lost", "O-state", "null_into_unique_column", "findings/F1-null-into-unique-column-leaves-row.json")
 
+# ---- open findings: VACUUM (C13) ----
+open_("D14", "C13", "VACUUM removes a row whose DELETE was rolled back (or was still pending: VACUUM aborts it)", "O-state", "vacuum_after_rolled_back_delete", "findings/D14-vacuum-removes-row-whose-delete-was-rolled-back.json")
+open_("D29", "C13", "CREATE TABLE after a VACUUM panics (types/core.rs:341) and kills the worker", "O-res", "ddl_after_vacuum", "findings/D29-create-table-after-vacuum-panics.json")
+open_("D29b", "C13", "with two tables in the catalog, inserts after a VACUUM panic (types/core.rs:341)", "O-res", "vacuum_with_more_than_one_table", "findings/D29b-insert-after-vacuum-with-two-tables-panics.json")
+open_("D29c", "C13", "UPDATE, VACUUM, UPDATE leaves the table unreadable ('btree page not found: 0')", "O-res", "vacuum_of_updated_rows", "findings/D29c-update-vacuum-update-loses-table.json")
+open_("V1", "C13", "statements executed in a session after VACUUM aborted its transaction are visible to everyone at once; its ROLLBACK fails with 'Transaction not found'", "O-state", "session_open_across_vacuum", "findings/V1-statements-after-vacuum-aborted-the-session-are-visible-at-once.json")
+
+# ---- open findings: DDL (C15) ----
+open_("X1", "C15", "CREATE UNIQUE INDEX inside an open transaction makes the table unusable for every other transaction ('Table not found N') until it commits", "O-res", "create_index_inside_session", "findings/X1-create-index-in-session-breaks-table-for-others.json")
+open_("X2", "C15", "CREATE UNIQUE INDEX on a column that holds a NULL fails with a type error", "O-res", "null_in_unique_column", "findings/X2-create-index-on-column-with-null-fails.json")
+open_("D16", "C15", "ALTER TABLE ... ADD COLUMN always fails ('Column with name ... was not found in schema')", "O-res", "history_contains_alter", "findings/D16-alter-add-column-fails.json")
+open_("D17", "C15", "ALTER TABLE ... DROP COLUMN of a middle column leaves every existing row unreadable ('Unexpected EOF')", "O-state", "history_contains_alter", "findings/D17-alter-drop-column-leaves-rows-unreadable.json")
+open_("D6", "C15", "DROP TABLE inside a session destroys the table before commit (tree deallocated at statement time)", "O-state", "drop_table_inside_session", "findings/D6-drop-table-in-session-destroys-table.json")
+open_("F2", "C15", "a session begun before another transaction's CREATE TABLE fails its next INSERT with 'btree page not found: 0'", "O-res", "ddl_concurrent_with_open_session", "findings/F2-session-insert-after-concurrent-ddl-and-inserts.json")
+
 # ---- open findings: E2 (crash simulator) ----
 open_("D3", "C01", "a transaction open at the crash on a table whose CREATE is still in the log makes open fail ('Table not found'): undo runs before redo", "O-open", "open_txn_on_uncheckpointed_table", "findings/D3-open-txn-on-uncheckpointed-table.json")
 open_("D3b", "C08", "an uncommitted CREATE TABLE in the log at the crash makes open fail ('Table not found' while undoing it)", "O-open", "uncommitted_create_at_crash", "findings/D3b-uncommitted-create-at-crash.json")
